@@ -445,8 +445,8 @@ func (c *Ctx) runFill(rule string, pkgs []*packages.Package, filter func(fn *ssa
 						if !ok {
 							continue
 						}
-						mk, ok := ia.X.(*ssa.MakeSlice)
-						if !ok || body[mk.Block()] {
+						mk := madeSlice(fn, ia.X)
+						if mk == nil || body[mk.Block()] {
 							continue
 						}
 						if !isInduction(ia.Index, h, body) {
@@ -501,6 +501,41 @@ func (c *Ctx) runFill(rule string, pkgs []*packages.Package, filter func(fn *ssa
 			}
 		}
 	}
+}
+
+// madeSlice: v is a make([]T, n) of this function, directly or through a field
+// of a local object the slice was stored into (m.table = make(...); m.table[i]).
+func madeSlice(fn *ssa.Function, v ssa.Value) *ssa.MakeSlice {
+	if mk, ok := v.(*ssa.MakeSlice); ok {
+		return mk
+	}
+	ld, ok := v.(*ssa.UnOp)
+	if !ok || ld.Op != token.MUL {
+		return nil
+	}
+	fa, ok := ld.X.(*ssa.FieldAddr)
+	if !ok {
+		return nil
+	}
+	var found *ssa.MakeSlice
+	for _, b := range fn.Blocks {
+		for _, ins := range b.Instrs {
+			st, ok := ins.(*ssa.Store)
+			if !ok {
+				continue
+			}
+			fa2, ok := st.Addr.(*ssa.FieldAddr)
+			if !ok || fa2.Field != fa.Field || !(fa2.X == fa.X || sameValue(fa2.X, fa.X)) {
+				continue
+			}
+			mk, isMk := st.Val.(*ssa.MakeSlice)
+			if !isMk || found != nil {
+				return nil // stored something else, or more than once
+			}
+			found = mk
+		}
+	}
+	return found
 }
 
 // isInduction: v is the loop's index (phi of the header, or phi+const for
